@@ -395,76 +395,92 @@ def serialize(ctx, F):
                   idf[0].get("span", ""), how=str(got), why=str(got))
     except CL.Unrecognised as e:
         ctx.fail("PIECES", "FramebufferType::id", "id() is a match on the variant", idf[0].get("span", ""), "UNRECOGNISED %s" % e)
+    # serialize() as a sequence description (SEQ): whichever way the bytes are assembled - one vector extended in the match
+    # arms, or one expression per arm (`chain` / `flat_map` / `to_vec` / `collect`) - it is evaluated to
+    #     Indexed: all(count bytes); for e in palette { e.red; e.green; e.blue }    RGB: six fields    Text: nothing
+    from .. import seq as SQ
     A = an.of(F, ins[0])
     b = A.body
-    exts = []
-    flat = []
-    for bb, t in b.calls():
-        ck = M.callee_key(t) or ""
-        at_ = (bb, len(b.stmts(bb)))
-        if ("Extend" in ck and "::extend" in ck) or ck.endswith("::extend_from_slice") or "::extend_from_slice" in ck:
-            a1 = N(A.tb.operand(t["args"][1], at_))
-            # extend_from_slice(&arr) takes the unsized view of the same array
-            if a1[0] == "unsize":
-                a1 = a1[1]
-            if a1[0] == "call" and ("Iterator>::flat_map" in str(a1[1]) or cn(a1[1]).endswith("Iterator::flat_map")) and len(a1[2]) == 2:
-                flat.append((bb, a1))
-            else:
-                exts.append((bb, a1))
-        elif ck.endswith("::to_vec") or "::to_vec" in ck or "slice::<impl [T]>::to_vec" in (M.callee_path(t) or ""):
-            # `[a, b, ..].to_vec()`: the whole content at once
-            a0 = N(A.tb.operand(t["args"][0], at_))
-            if a0[0] == "unsize":
-                a0 = a0[1]
-            exts.append((bb, a0))
+    E = SQ.Env(F, ins[0])
     me = deref(arg(1))
-    rgb = [e for e in exts if e[1][0] == "ref" and e[1][1][0] == "aggr" and len(e[1][1][2]) == 6]
-    ok_rgb = False
-    if len(rgb) == 1:
-        ops = rgb[0][1][1][2]
-        # (variant RGB).red.position, .size, green..., blue...
-        shape = []
-        for o in ops:
-            x = o
-            path = []
-            while x[0] in ("fld", "deref", "dc"):
-                if x[0] == "fld":
-                    path.append(x[2])
-                x = x[1]
-            shape.append(tuple(reversed(path)))
-        # field indices: variant payload field k (0 red,1 green,2 blue) then FramebufferField {position:0,size:1}
-        ok_rgb = [s_[-2:] for s_ in shape] == [(0, 0), (0, 1), (1, 0), (1, 1), (2, 0), (2, 1)]
+    per_ret = []
+    form_err = None
+    for rb in b.return_blocks:
+        try:
+            segs, how_ = SQ.seq_of_operand(E, A, {"m": {"l": 0, "p": []}}, rb)
+        except SQ.Unrec as e:
+            form_err = str(e)
+            break
+        conds = tuple(f for f in (N(x) for x in A.g.facts_at(rb)) if f[0] == "cmp" and f[2] == ("discr", me))
+        per_ret.append((conds, segs))
+    ctx.check(form_err is None, "PIECES", "serialize:form", "serialize() evaluates to a sequence description (SEQ) of the bytes it returns", ins[0].get("span", ""),
+              how="%d return(s)" % len(per_ret), why="UNRECOGNISED: %s" % form_err)
+
+    def holds(c, k_):
+        if c[0] == "cmp" and c[2] == ("discr", me) and c[3][0] == "c":
+            if c[1] == "Eq":
+                return c[3][1] == k_
+            if c[1] == "Ne":
+                return c[3][1] != k_
+        return None
+
+    def special(segs, k_):
+        out = []
+        for sg in segs:
+            if sg[0] == "opt":
+                vs = [holds(c, k_) for c in sg[1]]
+                if any(v is False for v in vs):
+                    continue
+                if all(v is True for v in vs):
+                    out += special(list(sg[2]), k_)
+                    continue
+            out.append(sg)
+        return out
+
+    def for_variant(name):
+        k_ = next((i_ for i_, v_ in enumerate(adt["variants"]) if v_["name"] == name), None)
+        out = []
+        for conds, segs in per_ret:
+            if any(holds(c, k_) is False for c in conds):
+                continue
+            out += special(segs, k_)
+        return out
+
+    def field_path(o):
+        x = o
+        path = []
+        while isinstance(x, tuple) and x and x[0] in ("fld", "deref", "dc"):
+            if x[0] == "fld":
+                path.append(x[2])
+            x = x[1]
+        return tuple(reversed(path)), x
+    ok_rgb = ok_idx = ok_txt = False
+    why_rgb = why_idx = why_txt = "not evaluated"
+    if form_err is None:
+        rgb = for_variant("RGB")
+        why_rgb = SQ.show(rgb)[:300]
+        if len(rgb) == 6 and all(sg[0] == "one" for sg in rgb):
+            shape = [field_path(sg[1]) for sg in rgb]
+            # variant payload field k (0 red, 1 green, 2 blue) then FramebufferField {position: 0, size: 1}
+            ok_rgb = [s_[0][-2:] for s_ in shape] == [(0, 0), (0, 1), (1, 0), (1, 1), (2, 0), (2, 1)] and all(s_[1] == arg(1) for s_ in shape)
+        idx = for_variant("Indexed")
+        why_idx = SQ.show(idx)[:300]
+        if len(idx) == 2 and idx[0][0] == "all" and idx[1][0] == "each":
+            tb_ = idx[0][1]
+            cnt = tb_[2] if tb_[0] == "to_bytes" and tb_[1] in ("to_ne_bytes", "to_le_bytes") and tb_[3] == "u16" else None
+            src = SQ.unref(SQ.strip_view(SQ.unref(idx[1][1])))
+            body = idx[1][2]
+            order = [sg[1][2] if sg[0] == "one" and sg[1][0] == "fld" and SQ.unref(sg[1][1]) in (SQ.ELEM, ("deref", SQ.ELEM)) else None for sg in body]
+            same_palette = False
+            if cnt is not None and cnt[0] == "cast" and cnt[3] == "u16" and cnt[2][0] == "len":
+                lensrc = SQ.unref(SQ.strip_view(SQ.unref(cnt[2][1])))
+                same_palette = lensrc in (src, ("deref", src)) or ("deref", lensrc) == src
+            ok_idx = bool(same_palette) and order == [0, 1, 2] and field_path(src)[1] == arg(1)
+        txt = for_variant("Text")
+        why_txt = SQ.show(txt)[:200]
+        ok_txt = txt == []
     ctx.check(ok_rgb, "PIECES", "serialize:rgb", "RGB colour info serialises as red position, red mask size, green position, green mask size, blue position, blue mask size",
-              ins[0].get("span", ""), how="one extend(&[..6 bytes..]) in field order", why=str([G.show(e[1])[:120] for e in rgb]))
-    idx = [e for e in exts if e not in rgb]
-    ok_idx = False
-    if len(idx) == 1 and len(flat) == 1:
-        # count, then extend(palette.iter().flat_map(|c| [c.red, c.green, c.blue])): per colour in order (std: flat_map over a
-        # slice iterator concatenates the arrays in element order)
-        first = [e for e in idx if e[1][0] == "ref" and e[1][1][0] == "to_bytes" and e[1][1][3] == "u16"]
-        it_, clo = flat[0][1][2]
-        from .. import select as SEL
-        cf = SEL.closure_fn(F, clo, ins[0])
-        if len(first) == 1 and cf is not None and it_[0] == "call" and cn(it_[1]) == "core::slice::iter":
-            cnt = first[0][1][1][2]
-            crt, _ = an.of(F, cf).ret()
-            cr = N(crt) if crt is not None else None
-            order = []
-            if cr is not None and cr[0] == "aggr" and cr[1] == ("array",) and len(cr[2]) == 3:
-                for o in cr[2]:
-                    order.append(o[2] if o[0] == "fld" and SEL.unref(o[1]) == arg(2) else None)
-            same_palette = cnt[0] == "cast" and cnt[3] == "u16" and cnt[2][0] == "len" and SEL.unref(cnt[2][1]) == SEL.unref(it_[2][0])
-            ok_idx = same_palette and order == [0, 1, 2] and b.dominates(first[0][0], flat[0][0])
-    if len(idx) == 2:
-        first = [e for e in idx if e[1][0] == "ref" and e[1][1][0] == "to_bytes" and e[1][1][3] == "u16"]
-        col = [e for e in idx if e[1][0] == "ref" and e[1][1][0] == "aggr" and len(e[1][1][2]) == 3]
-        if len(first) == 1 and len(col) == 1:
-            cnt = first[0][1][1][2]
-            order = []
-            for o in col[0][1][1][2]:
-                order.append(o[2] if o[0] == "fld" else None)
-            loops = b.back_edges()
-            in_loop = any(col[0][0] in b.loop_blocks(h, t) for (t, h) in loops)
-            ok_idx = cnt[0] == "cast" and cnt[3] == "u16" and cnt[2][0] == "len" and order == [0, 1, 2] and in_loop and b.dominates(first[0][0], col[0][0])
+              ins[0].get("span", ""), how="six elements in field order: " + why_rgb[:160], why=why_rgb)
+    ctx.check(ok_txt, "PIECES", "serialize:text", "text mode has no colour info bytes", ins[0].get("span", ""), how="empty sequence", why=why_txt)
     ctx.check(ok_idx, "PIECES", "serialize:indexed", "indexed colour info serialises as the u16 colour count followed, per colour in order, by red, green, blue",
-              ins[0].get("span", ""), how="extend(count.to_ne_bytes()) then a loop extending [r, g, b]", why=str([G.show(e[1])[:100] for e in idx]))
+              ins[0].get("span", ""), how=why_idx[:200], why=why_idx)
